@@ -50,9 +50,16 @@ class Var:
     def cat_missing(self):
         return [bool(c["missing"]) for c in self.cats]
 
+    @property
+    def valid_item_pos(self):
+        """raw positions of the array items not flagged missing"""
+        return [k for k, it in enumerate(self.items) if not it.get("missing")]
+
     def lean(self):
+        # the Lean model's array variable has no missing ITEMS: the harness hands it the valid items only
+        # (dropping a missing item's answers), while the real cube response carries all items
         return {"kind": "arr" if self.is_array else "cat",
-                "n": len(self.items) if self.is_array else len(self.cats),
+                "n": len(self.valid_item_pos) if self.is_array else len(self.cats),
                 "catMissing": self.cat_missing, "isMR": self.kind == "mr"}
 
     def to_json(self):
@@ -115,17 +122,24 @@ class Var:
             return [{"derived": True, "references": refs,
                      "type": {"class": "enum", "elements": els, "subtype": subtype}}]
         # arrays
-        subrefs = [{"alias": it["alias"], "name": it["name"], "description": it["name"]}
-                   for it in self.items]
+        def _refs(it):
+            r = {"alias": it["alias"], "name": it["name"], "description": it["name"]}
+            if it.get("derived") and it.get("anchor") is not None:
+                r["anchor"] = it["anchor"]
+            return r
+        subrefs = [_refs(it) for it in self.items]
         arefs = dict(refs, subreferences=subrefs)
         if self.kind == "mr":
             arefs["is_dichotomous"] = True
         els = []
         for it in self.items:
-            els.append({"id": it["id"], "missing": False,
-                        "value": {"derived": False, "id": it["subvar_id"],
-                                  "references": {"alias": it["alias"], "name": it["name"],
-                                                 "description": it["name"]}}})
+            els.append({"id": it["id"], "missing": bool(it.get("missing", False)),
+                        "value": {"derived": bool(it.get("derived", False)), "id": it["subvar_id"],
+                                  "references": _refs(it)}})
+        if self.kind == "mr" and any(it.get("derived") for it in self.items):
+            arefs["view"] = {"transform": {"insertions": [
+                {"function": "any_selected", "name": it["name"], "anchor": it.get("anchor"),
+                 "kwargs": {"variable": self.alias, "subvariable_ids": []}} for it in self.items if it.get("derived")]}}
         subvar_dim = {"derived": True, "references": copy.deepcopy(arefs),
                       "type": {"class": "enum", "elements": els, "subtype": {"class": "variable"}}}
         cats = []
@@ -181,10 +195,22 @@ def gen_items(rng, n, prefix):
              "name": "%s item %d" % (prefix, i)} for i, eid in enumerate(ids)]
 
 
-def gen_var(rng, kind, alias, n=None, ncat=None, allow_missing=True, numeric="some", min_valid=1):
+def gen_var(rng, kind, alias, n=None, ncat=None, allow_missing=True, numeric="some", min_valid=1,
+            missing_items=False, derived_items=False):
     n = n if n is not None else rng.randint(1, 4)
     if kind == "mr":
-        return Var("mr", alias, cats=copy.deepcopy(MR_CATS), items=gen_items(rng, n, alias))
+        v = Var("mr", alias, cats=copy.deepcopy(MR_CATS), items=gen_items(rng, n, alias))
+        if missing_items and n >= 2 and rng.random() < 0.25:
+            v.items[rng.randrange(n)]["missing"] = True
+        if derived_items and n >= 2 and rng.random() < 0.35:
+            k = rng.randrange(n)
+            others = [it["alias"] for j, it in enumerate(v.items) if j != k]
+            v.items[k]["derived"] = True
+            v.items[k]["anchor"] = rng.choice(["top", "bottom", None,
+                                              {"position": "before", "alias": rng.choice(others)},
+                                              {"position": "after", "alias": rng.choice(others)},
+                                              {"position": "after", "alias": "no_such_alias"}])
+        return v
     if kind == "ca":
         ncat = ncat if ncat is not None else rng.randint(2, 4)
         return Var("ca", alias, cats=gen_cats(rng, ncat, allow_missing, numeric, min_valid),
@@ -273,6 +299,26 @@ def tabulate(vars_, survey, weighted):
     return out
 
 
+def drop_missing_items(vars_, survey):
+    """the same design and survey with array items flagged missing removed (what the Lean model is given)"""
+    vs = []
+    for v in vars_:
+        if v.is_array and len(v.valid_item_pos) != len(v.items):
+            d = v.to_json()
+            d["items"] = [it for it in v.items if not it.get("missing")]
+            vs.append(Var.from_json(d))
+        else:
+            vs.append(v)
+    keep = [v.valid_item_pos if v.is_array else None for v in vars_]
+    sv = [(w, [([a[k] for k in kp] if kp is not None else a) for a, kp in zip(ans, keep)]) for w, ans in survey]
+    return vs, sv
+
+
+def tabulate_valid_items(vars_, survey, weighted):
+    vs, sv = drop_missing_items(vars_, survey)
+    return tabulate(vs, sv, weighted)
+
+
 def num(x):
     """JSON number for a Fraction (dyadic rationals are exact in binary64)."""
     if isinstance(x, Fraction):
@@ -324,8 +370,13 @@ def frac_str(x):
 
 
 def survey_lean(vars_, survey):
-    """survey in the Lean model's answer convention (arrays: category position per item)."""
-    return [{"w": frac_str(w), "ans": ans} for w, ans in survey]
+    """survey in the Lean model's answer convention (arrays: category position per VALID item)."""
+    keep = [v.valid_item_pos if v.is_array else None for v in vars_]
+    out = []
+    for w, ans in survey:
+        a2 = [([a[k] for k in kp] if kp is not None else a) for a, kp in zip(ans, keep)]
+        out.append({"w": frac_str(w), "ans": a2})
+    return out
 
 
 def design_lean(vars_):
